@@ -85,6 +85,11 @@ def run_parse(pest, parser, rule: str, text: str, start: int = 0, *, tags: bool 
 
     {"ok": True, "pairs": [...]} | {"ok": False, "fpos": p} | {"exc": "Type: msg"} | {"timeout": True}
     """
+    # Every call gets its OWN copy of the input, dropped when the call is over: consecutive calls then tend to see different
+    # texts at the same address, as an application parsing one temporary string after another does (anything remembered
+    # between calls by id(text) shows up as a wrong result instead of staying hidden behind a corpus that is kept alive).
+    if len(text) > 1 and not keep:
+        text = text[:1] + text[1:]
     try:
         with watchdog(timeout):
             r = parser.parse(rule, text, start_pos=start)
